@@ -1,9 +1,11 @@
 (** Property C07 — the ParFront partition is respected by every optimal consensus.
-    Status: proved for every ordered partition with no back arcs whose consecutive groups are linked by
-    robust arcs only (strict exchange + transitivity through non-empty groups), and as a verified checker
-    for the partition the library returns. That the merge loop always ends in such a partition is, in this
-    version, established by the correspondence (the loop's model run on the library's own SCC order) and
-    by the boolean test on every returned partition, not by a theorem. *)
+    Status: proved end to end on the model - starting from ANY partition of the universe without back arcs
+    (which is what the SCC routine is required to return; igraph itself is outside the model and its answer
+    is run through the boolean tests on every check), the merge loop terminates, concatenates consecutive
+    groups without reordering, ends with all consecutive groups robustly linked, and every optimal consensus
+    ranks each group strictly before the later ones (strict exchange + transitivity through non-empty
+    groups).  Not a theorem in this version: [consistent_with] = the "respects" relation (decided by the
+    correspondence on ALL pairs over 3-4 elements; reserved name C07_consistent_with_iff). *)
 From Corankco Require Import Prelude Scheme Rank KemenySpec CostTable OptTheory Partition PartitionProof.
 Local Open Scope Z_scope.
 
@@ -26,3 +28,18 @@ Theorem C07_optimal_iff_opt : forall K U c,
   mirror K -> NoDup U -> wfU U c -> (is_optimal K U c <-> score K c = opt K U).
 Proof. exact optimal_iff_opt. Qed.
 Print Assumptions C07_optimal_iff_opt.
+
+(** the merge loop: always produced, same elements in the same order, consecutive groups robustly linked *)
+Theorem C07_parfront_from_spec : forall K P0,
+  exists P, parfront_from K P0 = Some P /\ all_consecutive_robust K P = true /\ concat P = concat P0.
+Proof. exact parfront_from_spec. Qed.
+Print Assumptions C07_parfront_from_spec.
+
+(** end to end *)
+Theorem C07_parfront_every_optimum : forall K U P0,
+  mirror K -> NoDup U -> is_partition_of U P0 = true -> no_back_arcs K P0 = true ->
+  exists P, parfront_from K P0 = Some P /\ concat P = concat P0 /\ Forall (fun g => g <> []) P /\
+    forall c, is_optimal K U c ->
+      forall x y, In x U -> In y U -> bucket_id P x < bucket_id P y -> bucket_id c x < bucket_id c y.
+Proof. exact parfront_every_optimum. Qed.
+Print Assumptions C07_parfront_every_optimum.
